@@ -48,6 +48,7 @@ macro_rules
       | exact Pres.getInt _
       | exact Pres.liftOp _
       | exact Pres.binopM _ _ _
+      | exact Pres.unopM _ _
       | exact Pres.truthy _
       | exact Pres.convCell _ _
       | exact Pres.convCells _ _
